@@ -103,6 +103,11 @@ def gen_case(rng, idx, sdir):
               definition=rng.choice([None, "target def"]), reference=rng.choice([None, "tref"]))
         if depth > 0:
             s["sections"] = [tsec("%s_%d" % (name, i), depth - 1) for i in range(rng.choice([0, 1, 2]))]
+            if s["sections"] and rng.random() < 0.15:
+                # Sections and Properties have separate name spaces: a Property may carry the name of a sub-Section
+                twin = props(1, "tw")[0]
+                twin["name"] = s["sections"][0]["name"]
+                s["properties"].append(twin)
             for c in s["sections"]:
                 if rng.random() < 0.12:
                     # a Section that was created without a name: its id serves as name
@@ -131,6 +136,7 @@ def gen_case(rng, idx, sdir):
     ext = exts[0] if exts else None
     nlinks = rng.choice([1, 1, 2, 3, 4])
     used_tops = set()
+    used_beside = []
     linkers = []
     links = []
     for i in range(nlinks):
@@ -173,7 +179,15 @@ def gen_case(rng, idx, sdir):
                 own_s = [S(tmodel["sections"][0]["name"], tmodel["sections"][0]["type"], props(1, "op"))]
             if not own_p and not own_s:
                 mode = "empty"
-        L = S("L%d" % i, rng.choice(["t", "lt"]), own_p, own_s,
+        beside = (not use_ext and not used_beside and len(tp) == len(prefix) + 2 and not padded and rng.random() < 0.4
+                  and mode != "same-names")
+        if beside:
+            # the linking Section sits next to its target and its name is a proper prefix of the target's name
+            # (/targets/T -> /targets/T0): paths that are related as strings, not as paths
+            used_beside.append(True)
+            depth, hnames = 0, []
+            lpath = prefix + ("targets", "T")
+        L = S("L%d" % i if not beside else "T", rng.choice(["t", "lt"]), own_p, own_s,
               definition=rng.choice([None, "linker def"]))
         if use_ext:
             how = rng.choice(["url#path", "url#path", "url-only"])
@@ -190,6 +204,12 @@ def gen_case(rng, idx, sdir):
         node = L
         for d in reversed(range(depth)):
             node = S(hnames[d], "holder", props(rng.choice([0, 1]), "hp"), [node])
+        if beside:
+            zone_t["sections"].append(node)
+            if links and links[-1]["kind"] == "link":
+                links[-1]["linker"] = list(lpath)
+                L["link"] = rng.choice(["/" + "/".join(tp), rel_path(lpath, tp)])
+            continue
         linkers.append(node)
     zone_l = S("linkers", "zone", [], linkers)
     top = [zone_t, zone_l]
